@@ -116,7 +116,12 @@ def build_rows(case):
         sheets.append({"name": "external_choices", "header": ["list_name", "name", "label"], "rows": [["X", "x1", "X1"]]})
     st = {}
     if "dup_id" in T:
+        # both headers present; the notice depends on the headers, not on which of the two cells is filled
         st.update(form_id="fid", id_string="ids")
+        if len(T) % 3 == 1:
+            st["form_id"] = None
+        elif len(T) % 3 == 2:
+            st["id_string"] = None
     if "noclean" in T:
         st["clean_text_values"] = "no"
     if st:
